@@ -85,6 +85,9 @@ func readHeader(data []byte) (packetType uint16, size uint32, packet []byte, err
 	binary.Read(r, binary.LittleEndian, &packetType)
 	r.Seek(4, io.SeekStart)
 	binary.Read(r, binary.LittleEndian, &size)
+	if size < 8 {
+		return packetType, size, nil, errors.New("invalid packet size, smaller than the header")
+	}
 	if len(data) < int(size) {
 		return packetType, size, data[8:], errors.New("data incomplete, fragment received")
 	}
